@@ -77,6 +77,26 @@ func RoleMisuses(f *Func) (sites int, out []RoleMisuse) {
 			return true
 		}
 		nameP, elemP := params[0], params[1]
+		// the 4-parameter walker (codegen.WalkMappedAttr) already tells the callback whether the
+		// attribute is required (IsRequired on the walked collection): a callback that asks the
+		// collection again, with another predicate, disagrees with its siblings that use the flag
+		if name == "codegen.WalkMappedAttr" {
+			ast.Inspect(lit.Body, func(m ast.Node) bool {
+				c2, ok := m.(*ast.CallExpr)
+				if !ok {
+					return true
+				}
+				se, ok := c2.Fun.(*ast.SelectorExpr)
+				if !ok || se.Sel.Name != "IsRequiredNoDefault" { // IsRequired is what the walker itself computes: asking again is redundant, not different
+					return true
+				}
+				if SameExpr(info, se.X, call.Args[0]) {
+					sites++
+					out = append(out, RoleMisuse{c2, se.Sel.Name, Src(f.Pkg.Fset, c2), "recomputed required flag", "the walker's required parameter", c2.Pos()})
+				}
+				return true
+			})
+		}
 		ast.Inspect(lit.Body, func(m ast.Node) bool {
 			c2, ok := m.(*ast.CallExpr)
 			if !ok {
